@@ -752,6 +752,25 @@ theorem sim_stmt (c : Ctx) : (st : Stmt) → ∀ (inBlock : Bool) (sn sn' : Seen
     simp only [checkStmt, Option.some.injEq] at h
     subst h
     exact ⟨s, ns, by simp [execStmt], by simp [PySem.execStmt], R⟩
+  | .ifCmp g body, _, sn, sn', s, ns, R, h => by
+    simp only [checkStmt] at h
+    split at h
+    · simp at h
+    · rename_i hne
+      cases hr : isNameEqualsMain g with
+      | true =>
+        have hi : g.onImport = false := by
+          cases hi : g.onImport <;> simp_all
+        simp only [hr, if_true, Option.some.injEq] at h
+        subst h
+        exact ⟨s, ns, by simp [execStmt, hr], by simp [PySem.execStmt, hi], R⟩
+      | false =>
+        have hi : g.onImport = true := by
+          cases hi : g.onImport <;> simp_all
+        simp only [hr, Bool.false_eq_true, if_false] at h
+        obtain ⟨s', ns', hb, hp, R'⟩ := sim_list c body true sn sn' s ns R h
+        exact ⟨s', ns', by simp only [execStmt, hr, Bool.false_eq_true, if_false]; exact hb,
+          by simp only [PySem.execStmt, hi, if_true]; exact hp, R'⟩
   | .block k body tail, _, sn, sn', s, ns, R, h => by
     simp only [checkStmt] at h
     split at h
@@ -1149,6 +1168,34 @@ theorem docstring_eq_counterexample_old :
 
 example : inSubset (cx true)
     [.funcDef nX false [.builtin .property false] (some "getter".toList), .attrDoc "other".toList] = true := by decide
+
+/-- **recogniser** — `visit_If` skips a guarded block for exactly one test: `__name__ == '__main__'`
+(not negated, that operand order, that operator). -/
+theorem isNameEqualsMain_iff (g : Guard) :
+    isNameEqualsMain g = true ↔ g = { left := .dunderName, op := .eq, right := .mainStr, negated := false } := by
+  obtain ⟨l, o, r, n⟩ := g
+  cases l <;> cases o <;> cases r <;> cases n <;> simp [isNameEqualsMain]
+
+/-- whatever the recogniser accepts is not taken on import: pydoctor never hides a block CPython executes -/
+theorem recognised_not_taken (g : Guard) (h : isNameEqualsMain g = true) : g.onImport = false := by
+  rw [(isNameEqualsMain_iff g).mp h]; decide
+
+/-- the near misses are all taken on import and all entered by pydoctor: `__name__ != '__main__'`,
+`'__main__' != __name__`, `not __name__ == '__main__'`, `__name__ is not None` -/
+theorem near_misses_taken_and_entered :
+    ∀ g ∈ ([⟨.dunderName, .notEq, .mainStr, false⟩, ⟨.mainStr, .notEq, .dunderName, false⟩,
+            ⟨.dunderName, .eq, .mainStr, true⟩, ⟨.dunderName, .isNot, .noneLit, false⟩] : List Guard),
+      g.onImport = true ∧ isNameEqualsMain g = false := by decide
+
+example : inSubset (cx false) [.ifCmp ⟨.dunderName, .notEq, .mainStr, false⟩ [.funcDef nF false [] none]] = true := by decide
+example : documented (cx false) [.ifCmp ⟨.dunderName, .notEq, .mainStr, false⟩ [.funcDef nF false [] none]]
+    = [(nF, .function)] := by decide
+
+/-- the reversed spelling `'__main__' == __name__` (and any other test that is false on import) is not recognised:
+pydoctor documents the body of a block CPython does not execute — an untaken `if`, outside the agreed subset -/
+theorem documented_eq_bound_untaken_guard_counterexample :
+    documented (cx false) [.ifCmp ⟨.mainStr, .eq, .dunderName, false⟩ [.funcDef nF false [] none]] = [(nF, .function)] ∧
+    bound (cx false) [.ifCmp ⟨.mainStr, .eq, .dunderName, false⟩ [.funcDef nF false [] none]] = [] := by decide
 
 /-- wrapping a method twice the old way trips `assert target_obj.kind is DocumentableKind.METHOD` -/
 theorem oldstyle_double_wrap_asserts :
